@@ -14,9 +14,9 @@ import (
 // C17 — ItemOrderTimestamp is a strict weak order consistent with max(published, updated).
 
 type ordItem struct {
-	GoType string `json:"t"`   // "" = untyped nil
-	Ptr    bool   `json:"ptr"`
-	Nil    bool   `json:"nil"` // typed nil pointer
+	GoType string   `json:"t"` // "" = untyped nil
+	Ptr    bool     `json:"ptr"`
+	Nil    bool     `json:"nil"` // typed nil pointer
 	Pub    [3]int64 `json:"pub"` // sec, nsec, zone offset; zero time = {-62135596800,0,0}
 	Upd    [3]int64 `json:"upd"`
 }
